@@ -112,6 +112,9 @@ STAGED = [
     {"mx": 2, "mn": 1, "timeout": 5, "main": [("start",), ("enq", "gate"), ("joint", 0.5), ("enq", "ret"), ("wait", 1, 1000.0), ("stop",)], "others": []},
     {"mx": 1, "mn": 0, "timeout": 60, "main": [("enq", "ret"), ("start",), ("wait", 0, 1000.0), ("enq", "ret"), ("stop",), ("start",), ("enq", "partial-raise"), ("join",)], "others": []},
     {"mx": 2, "mn": 0, "timeout": 60, "main": [("start",), ("enq", "ret"), ("wait", 0, 1000.0), ("join",)], "others": [[("enq", "ret"), ("enq", "ret")]]},
+    # the controller comes back at the very instant idle workers time out
+    {"mx": 2, "mn": 0, "timeout": 5, "main": [("start",), ("enq", "ret"), ("enq", "ret"), ("wait", 0, 1000.0), ("wait", 1, 1000.0), ("sleep", "T"), ("enq", "ret"), ("wait", 2, 1000.0), ("join",)], "others": []},
+    {"mx": 2, "mn": 1, "timeout": 5, "main": [("start",), ("enq", "ret"), ("enq", "ret"), ("sleep", "T"), ("enq", "ret"), ("enq", "ret"), ("join",)], "others": []},
 ]
 
 
